@@ -32,12 +32,33 @@ let rec app l m =
   | [] -> m
   | a :: l1 -> a :: (app l1 m)
 
-(** val add : nat -> nat -> nat **)
+type comparison =
+| Eq
+| Lt
+| Gt
 
-let rec add n m =
+(** val compOpp : comparison -> comparison **)
+
+let compOpp = function
+| Eq -> Eq
+| Lt -> Gt
+| Gt -> Lt
+
+module Coq__1 = struct
+ (** val add : nat -> nat -> nat **)
+ let rec add n m =
+   match n with
+   | O -> m
+   | S p -> S (add p m)
+end
+include Coq__1
+
+(** val mul : nat -> nat -> nat **)
+
+let rec mul n m =
   match n with
-  | O -> m
-  | S p -> S (add p m)
+  | O -> O
+  | S p -> add m (mul p m)
 
 (** val sub : nat -> nat -> nat **)
 
@@ -76,6 +97,12 @@ module Nat =
     leb (S n) m
  end
 
+(** val tl : 'a1 list -> 'a1 list **)
+
+let tl = function
+| [] -> []
+| _ :: m -> m
+
 (** val nth : nat -> 'a1 list -> 'a1 -> 'a1 **)
 
 let rec nth n l default =
@@ -86,6 +113,25 @@ let rec nth n l default =
   | S m -> (match l with
             | [] -> default
             | _ :: t -> nth m t default)
+
+(** val nth_error : 'a1 list -> nat -> 'a1 option **)
+
+let rec nth_error l = function
+| O -> (match l with
+        | [] -> None
+        | x :: _ -> Some x)
+| S n0 -> (match l with
+           | [] -> None
+           | _ :: l0 -> nth_error l0 n0)
+
+(** val last : 'a1 list -> 'a1 -> 'a1 **)
+
+let rec last l d =
+  match l with
+  | [] -> d
+  | a :: l0 -> (match l0 with
+                | [] -> a
+                | _ :: _ -> last l0 d)
 
 (** val removelast : 'a1 list -> 'a1 list **)
 
@@ -107,11 +153,38 @@ let rec map f = function
 | [] -> []
 | a :: t -> (f a) :: (map f t)
 
+(** val fold_right : ('a2 -> 'a1 -> 'a1) -> 'a1 -> 'a2 list -> 'a1 **)
+
+let rec fold_right f a0 = function
+| [] -> a0
+| b :: t -> f b (fold_right f a0 t)
+
+(** val existsb : ('a1 -> bool) -> 'a1 list -> bool **)
+
+let rec existsb f = function
+| [] -> false
+| a :: l0 -> (||) (f a) (existsb f l0)
+
+(** val forallb : ('a1 -> bool) -> 'a1 list -> bool **)
+
+let rec forallb f = function
+| [] -> true
+| a :: l0 -> (&&) (f a) (forallb f l0)
+
 (** val filter : ('a1 -> bool) -> 'a1 list -> 'a1 list **)
 
 let rec filter f = function
 | [] -> []
 | x :: l0 -> if f x then x :: (filter f l0) else filter f l0
+
+(** val firstn : nat -> 'a1 list -> 'a1 list **)
+
+let rec firstn n l =
+  match n with
+  | O -> []
+  | S n0 -> (match l with
+             | [] -> []
+             | a :: l0 -> a :: (firstn n0 l0))
 
 (** val skipn : nat -> 'a1 list -> 'a1 list **)
 
@@ -121,6 +194,12 @@ let rec skipn n l =
   | S n0 -> (match l with
              | [] -> []
              | _ :: l0 -> skipn n0 l0)
+
+(** val repeat : 'a1 -> nat -> 'a1 list **)
+
+let rec repeat x = function
+| O -> []
+| S k -> x :: (repeat x k)
 
 type positive =
 | XI of positive
@@ -134,6 +213,90 @@ type z =
 
 module Pos =
  struct
+  (** val succ : positive -> positive **)
+
+  let rec succ = function
+  | XI p -> XO (succ p)
+  | XO p -> XI p
+  | XH -> XO XH
+
+  (** val add : positive -> positive -> positive **)
+
+  let rec add x y =
+    match x with
+    | XI p ->
+      (match y with
+       | XI q -> XO (add_carry p q)
+       | XO q -> XI (add p q)
+       | XH -> XO (succ p))
+    | XO p ->
+      (match y with
+       | XI q -> XI (add p q)
+       | XO q -> XO (add p q)
+       | XH -> XI p)
+    | XH -> (match y with
+             | XI q -> XO (succ q)
+             | XO q -> XI q
+             | XH -> XO XH)
+
+  (** val add_carry : positive -> positive -> positive **)
+
+  and add_carry x y =
+    match x with
+    | XI p ->
+      (match y with
+       | XI q -> XI (add_carry p q)
+       | XO q -> XO (add_carry p q)
+       | XH -> XI (succ p))
+    | XO p ->
+      (match y with
+       | XI q -> XO (add_carry p q)
+       | XO q -> XI (add p q)
+       | XH -> XO (succ p))
+    | XH ->
+      (match y with
+       | XI q -> XI (succ q)
+       | XO q -> XO (succ q)
+       | XH -> XI XH)
+
+  (** val pred_double : positive -> positive **)
+
+  let rec pred_double = function
+  | XI p -> XI (XO p)
+  | XO p -> XI (pred_double p)
+  | XH -> XH
+
+  (** val mul : positive -> positive -> positive **)
+
+  let rec mul x y =
+    match x with
+    | XI p -> add y (XO (mul p y))
+    | XO p -> XO (mul p y)
+    | XH -> y
+
+  (** val compare_cont : comparison -> positive -> positive -> comparison **)
+
+  let rec compare_cont r x y =
+    match x with
+    | XI p ->
+      (match y with
+       | XI q -> compare_cont r p q
+       | XO q -> compare_cont Gt p q
+       | XH -> Gt)
+    | XO p ->
+      (match y with
+       | XI q -> compare_cont Lt p q
+       | XO q -> compare_cont r p q
+       | XH -> Gt)
+    | XH -> (match y with
+             | XH -> r
+             | _ -> Lt)
+
+  (** val compare : positive -> positive -> comparison **)
+
+  let compare =
+    compare_cont Eq
+
   (** val eqb : positive -> positive -> bool **)
 
   let rec eqb p q =
@@ -159,11 +322,132 @@ module Pos =
   (** val to_nat : positive -> nat **)
 
   let to_nat x =
-    iter_op add x (S O)
+    iter_op Coq__1.add x (S O)
+
+  (** val of_succ_nat : nat -> positive **)
+
+  let rec of_succ_nat = function
+  | O -> XH
+  | S x -> succ (of_succ_nat x)
  end
 
 module Z =
  struct
+  (** val double : z -> z **)
+
+  let double = function
+  | Z0 -> Z0
+  | Zpos p -> Zpos (XO p)
+  | Zneg p -> Zneg (XO p)
+
+  (** val succ_double : z -> z **)
+
+  let succ_double = function
+  | Z0 -> Zpos XH
+  | Zpos p -> Zpos (XI p)
+  | Zneg p -> Zneg (Pos.pred_double p)
+
+  (** val pred_double : z -> z **)
+
+  let pred_double = function
+  | Z0 -> Zneg XH
+  | Zpos p -> Zpos (Pos.pred_double p)
+  | Zneg p -> Zneg (XI p)
+
+  (** val pos_sub : positive -> positive -> z **)
+
+  let rec pos_sub x y =
+    match x with
+    | XI p ->
+      (match y with
+       | XI q -> double (pos_sub p q)
+       | XO q -> succ_double (pos_sub p q)
+       | XH -> Zpos (XO p))
+    | XO p ->
+      (match y with
+       | XI q -> pred_double (pos_sub p q)
+       | XO q -> double (pos_sub p q)
+       | XH -> Zpos (Pos.pred_double p))
+    | XH ->
+      (match y with
+       | XI q -> Zneg (XO q)
+       | XO q -> Zneg (Pos.pred_double q)
+       | XH -> Z0)
+
+  (** val add : z -> z -> z **)
+
+  let add x y =
+    match x with
+    | Z0 -> y
+    | Zpos x' ->
+      (match y with
+       | Z0 -> x
+       | Zpos y' -> Zpos (Pos.add x' y')
+       | Zneg y' -> pos_sub x' y')
+    | Zneg x' ->
+      (match y with
+       | Z0 -> x
+       | Zpos y' -> pos_sub y' x'
+       | Zneg y' -> Zneg (Pos.add x' y'))
+
+  (** val opp : z -> z **)
+
+  let opp = function
+  | Z0 -> Z0
+  | Zpos x0 -> Zneg x0
+  | Zneg x0 -> Zpos x0
+
+  (** val sub : z -> z -> z **)
+
+  let sub m n =
+    add m (opp n)
+
+  (** val mul : z -> z -> z **)
+
+  let mul x y =
+    match x with
+    | Z0 -> Z0
+    | Zpos x' ->
+      (match y with
+       | Z0 -> Z0
+       | Zpos y' -> Zpos (Pos.mul x' y')
+       | Zneg y' -> Zneg (Pos.mul x' y'))
+    | Zneg x' ->
+      (match y with
+       | Z0 -> Z0
+       | Zpos y' -> Zneg (Pos.mul x' y')
+       | Zneg y' -> Zpos (Pos.mul x' y'))
+
+  (** val compare : z -> z -> comparison **)
+
+  let compare x y =
+    match x with
+    | Z0 -> (match y with
+             | Z0 -> Eq
+             | Zpos _ -> Lt
+             | Zneg _ -> Gt)
+    | Zpos x' -> (match y with
+                  | Zpos y' -> Pos.compare x' y'
+                  | _ -> Gt)
+    | Zneg x' ->
+      (match y with
+       | Zneg y' -> compOpp (Pos.compare x' y')
+       | _ -> Lt)
+
+  (** val leb : z -> z -> bool **)
+
+  let leb x y =
+    match compare x y with
+    | Gt -> false
+    | _ -> true
+
+  (** val ltb : z -> z -> bool **)
+
+  let ltb x y =
+    match compare x y with
+    | Lt -> true
+    | _ -> false
+
   (** val eqb : z -> z -> bool **)
 
   let eqb x y =
@@ -178,11 +462,71 @@ module Z =
                  | Zneg q -> Pos.eqb p q
                  | _ -> false)
 
+  (** val max : z -> z -> z **)
+
+  let max n m =
+    match compare n m with
+    | Lt -> m
+    | _ -> n
+
   (** val to_nat : z -> nat **)
 
   let to_nat = function
   | Zpos p -> Pos.to_nat p
   | _ -> O
+
+  (** val of_nat : nat -> z **)
+
+  let of_nat = function
+  | O -> Z0
+  | S n0 -> Zpos (Pos.of_succ_nat n0)
+
+  (** val pos_div_eucl : positive -> z -> z * z **)
+
+  let rec pos_div_eucl a b =
+    match a with
+    | XI a' ->
+      let (q, r) = pos_div_eucl a' b in
+      let r' = add (mul (Zpos (XO XH)) r) (Zpos XH) in
+      if ltb r' b
+      then ((mul (Zpos (XO XH)) q), r')
+      else ((add (mul (Zpos (XO XH)) q) (Zpos XH)), (sub r' b))
+    | XO a' ->
+      let (q, r) = pos_div_eucl a' b in
+      let r' = mul (Zpos (XO XH)) r in
+      if ltb r' b
+      then ((mul (Zpos (XO XH)) q), r')
+      else ((add (mul (Zpos (XO XH)) q) (Zpos XH)), (sub r' b))
+    | XH -> if leb (Zpos (XO XH)) b then (Z0, (Zpos XH)) else ((Zpos XH), Z0)
+
+  (** val div_eucl : z -> z -> z * z **)
+
+  let div_eucl a b =
+    match a with
+    | Z0 -> (Z0, Z0)
+    | Zpos a' ->
+      (match b with
+       | Z0 -> (Z0, a)
+       | Zpos _ -> pos_div_eucl a' b
+       | Zneg b' ->
+         let (q, r) = pos_div_eucl a' (Zpos b') in
+         (match r with
+          | Z0 -> ((opp q), Z0)
+          | _ -> ((opp (add q (Zpos XH))), (add b r))))
+    | Zneg a' ->
+      (match b with
+       | Z0 -> (Z0, a)
+       | Zpos _ ->
+         let (q, r) = pos_div_eucl a' b in
+         (match r with
+          | Z0 -> ((opp q), Z0)
+          | _ -> ((opp (add q (Zpos XH))), (sub b r)))
+       | Zneg b' -> let (q, r) = pos_div_eucl a' (Zpos b') in (q, (opp r)))
+
+  (** val div : z -> z -> z **)
+
+  let div a b =
+    let (q, _) = div_eucl a b in q
  end
 
 type err =
@@ -253,6 +597,11 @@ type val0 =
 | VI of z
 | VL of val0 list
 
+(** val vnat : nat -> val0 **)
+
+let vnat n =
+  VI (Z.of_nat n)
+
 (** val vstr : str -> val0 **)
 
 let vstr s =
@@ -304,6 +653,1831 @@ let as_strs v =
 
 let arg v n =
   nth n (as_list v) (VI Z0)
+
+type char_ops = { co_lower : (z -> z); co_class : (z -> z);
+                  co_norm : (z -> z); co_space : (z -> bool) }
+
+(** val cWhite : z **)
+
+let cWhite =
+  Z0
+
+(** val cNonWord : z **)
+
+let cNonWord =
+  Zpos XH
+
+(** val cDelim : z **)
+
+let cDelim =
+  Zpos (XO XH)
+
+(** val cLower : z **)
+
+let cLower =
+  Zpos (XI XH)
+
+(** val cUpper : z **)
+
+let cUpper =
+  Zpos (XO (XO XH))
+
+(** val cNumber : z **)
+
+let cNumber =
+  Zpos (XO (XI XH))
+
+type scheme = { s_bw : z; s_bd : z; s_delims : z list; s_init : z }
+
+(** val scheme_default : scheme **)
+
+let scheme_default =
+  { s_bw = (Zpos (XO (XI (XO XH)))); s_bd = (Zpos (XI (XO (XO XH))));
+    s_delims = ((Zpos (XI (XI (XI (XI (XO XH)))))) :: ((Zpos (XO (XO (XI (XI
+    (XO XH)))))) :: ((Zpos (XO (XI (XO (XI (XI XH)))))) :: ((Zpos (XI (XI (XO
+    (XI (XI XH)))))) :: ((Zpos (XO (XO (XI (XI (XI (XI XH))))))) :: [])))));
+    s_init = cWhite }
+
+(** val scheme_path : scheme **)
+
+let scheme_path =
+  { s_bw = (Zpos (XO (XO (XO XH)))); s_bd = (Zpos (XI (XO (XO XH))));
+    s_delims = ((Zpos (XI (XI (XI (XI (XO XH)))))) :: []); s_init = cDelim }
+
+(** val scheme_history : scheme **)
+
+let scheme_history =
+  { s_bw = (Zpos (XO (XO (XO XH)))); s_bd = (Zpos (XO (XO (XO XH))));
+    s_delims = ((Zpos (XI (XI (XI (XI (XO XH)))))) :: ((Zpos (XO (XO (XI (XI
+    (XO XH)))))) :: ((Zpos (XO (XI (XO (XI (XI XH)))))) :: ((Zpos (XI (XI (XO
+    (XI (XI XH)))))) :: ((Zpos (XO (XO (XI (XI (XI (XI XH))))))) :: [])))));
+    s_init = cWhite }
+
+(** val scoreMatch : z **)
+
+let scoreMatch =
+  Zpos (XO (XO (XO (XO XH))))
+
+(** val scoreGapStart : z **)
+
+let scoreGapStart =
+  Zneg (XI XH)
+
+(** val scoreGapExt : z **)
+
+let scoreGapExt =
+  Zneg XH
+
+(** val bonusBoundary : z **)
+
+let bonusBoundary =
+  Zpos (XO (XO (XO XH)))
+
+(** val bonusNonWord : z **)
+
+let bonusNonWord =
+  Zpos (XO (XO (XO XH)))
+
+(** val bonusCamel : z **)
+
+let bonusCamel =
+  Zpos (XI (XI XH))
+
+(** val bonusConsecutive : z **)
+
+let bonusConsecutive =
+  Zpos (XO (XO XH))
+
+(** val mem : z -> z list -> bool **)
+
+let mem c l =
+  existsb (Z.eqb c) l
+
+(** val ascii_white : z -> bool **)
+
+let ascii_white c =
+  mem c ((Zpos (XO (XO (XO (XO (XO XH)))))) :: ((Zpos (XI (XO (XO
+    XH)))) :: ((Zpos (XO (XI (XO XH)))) :: ((Zpos (XI (XI (XO
+    XH)))) :: ((Zpos (XO (XO (XI XH)))) :: ((Zpos (XI (XO (XI
+    XH)))) :: []))))))
+
+(** val ascii_class : scheme -> z -> z **)
+
+let ascii_class sc c =
+  if (&&) (Z.leb (Zpos (XI (XO (XO (XO (XO (XI XH))))))) c)
+       (Z.leb c (Zpos (XO (XI (XO (XI (XI (XI XH))))))))
+  then cLower
+  else if (&&) (Z.leb (Zpos (XI (XO (XO (XO (XO (XO XH))))))) c)
+            (Z.leb c (Zpos (XO (XI (XO (XI (XI (XO XH))))))))
+       then cUpper
+       else if (&&) (Z.leb (Zpos (XO (XO (XO (XO (XI XH)))))) c)
+                 (Z.leb c (Zpos (XI (XO (XO (XI (XI XH)))))))
+            then cNumber
+            else if ascii_white c
+                 then cWhite
+                 else if mem c sc.s_delims then cDelim else cNonWord
+
+(** val class_of : char_ops -> scheme -> z -> z **)
+
+let class_of co sc c =
+  if Z.leb c (Zpos (XI (XI (XI (XI (XI (XI XH)))))))
+  then ascii_class sc c
+  else co.co_class c
+
+(** val is_space : char_ops -> z -> bool **)
+
+let is_space co c =
+  if Z.leb c (Zpos (XI (XI (XI (XI (XI (XI XH)))))))
+  then ascii_white c
+  else co.co_space c
+
+(** val bonus_for : scheme -> z -> z -> z **)
+
+let bonus_for sc prev cur =
+  if (&&) (Z.ltb cNonWord cur) (Z.eqb prev cWhite)
+  then sc.s_bw
+  else if (&&) (Z.ltb cNonWord cur) (Z.eqb prev cDelim)
+       then sc.s_bd
+       else if (&&) (Z.ltb cNonWord cur) (Z.eqb prev cNonWord)
+            then bonusBoundary
+            else if (||) ((&&) (Z.eqb prev cLower) (Z.eqb cur cUpper))
+                      ((&&) (negb (Z.eqb prev cNumber)) (Z.eqb cur cNumber))
+                 then bonusCamel
+                 else if (||) (Z.eqb cur cNonWord) (Z.eqb cur cDelim)
+                      then bonusNonWord
+                      else if Z.eqb cur cWhite then sc.s_bw else Z0
+
+(** val lower1 : char_ops -> z -> z **)
+
+let lower1 co c =
+  if (&&) (Z.leb (Zpos (XI (XO (XO (XO (XO (XO XH))))))) c)
+       (Z.leb c (Zpos (XO (XI (XO (XI (XI (XO XH))))))))
+  then Z.add c (Zpos (XO (XO (XO (XO (XO XH))))))
+  else if Z.ltb (Zpos (XI (XI (XI (XI (XI (XI XH))))))) c
+       then co.co_lower c
+       else c
+
+(** val fold : char_ops -> bool -> bool -> z -> z **)
+
+let fold co cs nm c =
+  let c0 = if cs then c else lower1 co c in if nm then co.co_norm c0 else c0
+
+(** val witness_from :
+    char_ops -> bool -> bool -> z list -> nat -> z list -> nat list -> bool **)
+
+let rec witness_from co cs nm text lo pat pos =
+  match pat with
+  | [] -> (match pos with
+           | [] -> true
+           | _ :: _ -> false)
+  | p :: pat' ->
+    (match pos with
+     | [] -> false
+     | i :: pos' ->
+       (&&) (Nat.leb lo i)
+         (match nth_error text i with
+          | Some c ->
+            (&&) (Z.eqb (fold co cs nm c) p)
+              (witness_from co cs nm text (S i) pat' pos')
+          | None -> false))
+
+(** val witness :
+    char_ops -> bool -> bool -> z list -> z list -> nat list -> bool **)
+
+let witness co cs nm text pat pos =
+  witness_from co cs nm text O pat pos
+
+(** val subseq_b : char_ops -> bool -> bool -> z list -> z list -> bool **)
+
+let rec subseq_b co cs nm text pat = match pat with
+| [] -> true
+| p :: pat' ->
+  (match text with
+   | [] -> false
+   | c :: text' ->
+     if Z.eqb (fold co cs nm c) p
+     then subseq_b co cs nm text' pat'
+     else subseq_b co cs nm text' pat)
+
+(** val prefix_b : char_ops -> bool -> bool -> z list -> z list -> bool **)
+
+let rec prefix_b co cs nm text = function
+| [] -> true
+| p :: pat' ->
+  (match text with
+   | [] -> false
+   | c :: t' -> (&&) (Z.eqb (fold co cs nm c) p) (prefix_b co cs nm t' pat'))
+
+(** val occurs_at :
+    char_ops -> bool -> bool -> z list -> z list -> nat -> bool **)
+
+let occurs_at co cs nm text pat s =
+  prefix_b co cs nm (skipn s text) pat
+
+(** val edge_class : char_ops -> scheme -> z -> bool **)
+
+let edge_class co sc c =
+  Z.leb (class_of co sc c) cDelim
+
+(** val left_ok : char_ops -> scheme -> z list -> nat -> bool **)
+
+let left_ok co sc text = function
+| O -> true
+| S s' ->
+  (match nth_error text s' with
+   | Some c -> edge_class co sc c
+   | None -> false)
+
+(** val right_ok : char_ops -> scheme -> z list -> nat -> bool **)
+
+let right_ok co sc text e =
+  match nth_error text e with
+  | Some c -> edge_class co sc c
+  | None -> true
+
+(** val boundary_at :
+    char_ops -> scheme -> bool -> bool -> z list -> z list -> nat -> bool **)
+
+let boundary_at co sc cs nm text pat s =
+  (&&) ((&&) (occurs_at co cs nm text pat s) (left_ok co sc text s))
+    (right_ok co sc text (add s (length pat)))
+
+(** val count_while : (z -> bool) -> z list -> nat **)
+
+let rec count_while p = function
+| [] -> O
+| c :: r -> if p c then S (count_while p r) else O
+
+(** val lead_ws : char_ops -> z list -> nat **)
+
+let lead_ws co text =
+  count_while (is_space co) text
+
+(** val trail_ws : char_ops -> z list -> nat **)
+
+let trail_ws co text =
+  count_while (is_space co) (rev text)
+
+(** val exists_upto : (nat -> bool) -> nat -> bool **)
+
+let rec exists_upto f n = match n with
+| O -> f O
+| S n' -> (||) (f n) (exists_upto f n')
+
+(** val substr_b : char_ops -> bool -> bool -> z list -> z list -> bool **)
+
+let substr_b co cs nm text pat =
+  exists_upto (occurs_at co cs nm text pat) (length text)
+
+(** val boundary_substr_b :
+    char_ops -> scheme -> bool -> bool -> z list -> z list -> bool **)
+
+let boundary_substr_b co sc cs nm text pat =
+  exists_upto (boundary_at co sc cs nm text pat) (length text)
+
+(** val head_space : char_ops -> z list -> bool **)
+
+let head_space co = function
+| [] -> false
+| c :: _ -> is_space co c
+
+(** val last_space : char_ops -> z list -> bool **)
+
+let last_space co p =
+  head_space co (rev p)
+
+(** val prefix_spec :
+    char_ops -> bool -> bool -> z list -> z list -> nat option **)
+
+let prefix_spec co cs nm text pat =
+  let s = if head_space co pat then O else lead_ws co text in
+  if occurs_at co cs nm text pat s then Some s else None
+
+(** val suffix_spec :
+    char_ops -> bool -> bool -> z list -> z list -> nat option **)
+
+let suffix_spec co cs nm text pat =
+  let e =
+    if last_space co pat
+    then length text
+    else sub (length text) (trail_ws co text)
+  in
+  if (&&) (Nat.leb (length pat) e)
+       (occurs_at co cs nm text pat (sub e (length pat)))
+  then Some (sub e (length pat))
+  else None
+
+(** val equal_spec :
+    char_ops -> bool -> bool -> z list -> z list -> nat option **)
+
+let equal_spec co cs nm text pat =
+  let s = if head_space co pat then O else lead_ws co text in
+  let te = if last_space co pat then O else trail_ws co text in
+  if (&&) (Nat.eqb (add (add s (length pat)) te) (length text))
+       (occurs_at co cs nm text pat s)
+  then Some s
+  else None
+
+(** val class_before : char_ops -> scheme -> z list -> nat -> z **)
+
+let class_before co sc text = function
+| O -> sc.s_init
+| S j ->
+  (match nth_error text j with
+   | Some c -> class_of co sc c
+   | None -> sc.s_init)
+
+(** val bonus_at : char_ops -> scheme -> z list -> nat -> z **)
+
+let bonus_at co sc text i =
+  match nth_error text i with
+  | Some c -> bonus_for sc (class_before co sc text i) (class_of co sc c)
+  | None -> Z0
+
+(** val align_walk :
+    char_ops -> scheme -> z list -> nat -> nat -> nat list -> bool -> bool ->
+    nat -> z -> z -> z **)
+
+let rec align_walk co sc text i n pos first inGap consecutive firstBonus score =
+  match n with
+  | O -> score
+  | S n' ->
+    (match pos with
+     | [] -> score
+     | p :: pos' ->
+       if Nat.eqb i p
+       then let b = bonus_at co sc text i in
+            let fb =
+              if Nat.eqb consecutive O
+              then b
+              else if (&&) (Z.leb bonusBoundary b) (Z.ltb firstBonus b)
+                   then b
+                   else firstBonus
+            in
+            let b' =
+              if Nat.eqb consecutive O
+              then b
+              else Z.max (Z.max b fb) bonusConsecutive
+            in
+            let score0 =
+              Z.add (Z.add score scoreMatch)
+                (if first then Z.mul (Zpos (XO XH)) b' else b')
+            in
+            align_walk co sc text (S i) n' pos' false false (S consecutive)
+              fb score0
+       else let score0 =
+              Z.add score (if inGap then scoreGapExt else scoreGapStart)
+            in
+            align_walk co sc text (S i) n' pos false true O Z0 score0)
+
+(** val align_score : char_ops -> scheme -> z list -> nat list -> z **)
+
+let align_score co sc text pos = match pos with
+| [] -> Z0
+| p0 :: _ ->
+  align_walk co sc text p0 (sub (S (last pos O)) p0) pos true false O Z0 Z0
+
+type cell = { c_h : z option; c_cons : z; c_gap : bool }
+
+(** val opt_add : z option -> z -> z option **)
+
+let opt_add o d =
+  match o with
+  | Some z0 -> Some (Z.add z0 d)
+  | None -> None
+
+(** val dp_row0 :
+    char_ops -> scheme -> bool -> bool -> z list -> z -> nat -> z list -> z
+    option -> bool -> cell list **)
+
+let rec dp_row0 co sc cs nm text p0 j full prev inGap =
+  match text with
+  | [] -> []
+  | c :: rest ->
+    if Z.eqb (fold co cs nm c) p0
+    then let h =
+           Z.add scoreMatch (Z.mul (Zpos (XO XH)) (bonus_at co sc full j))
+         in
+         { c_h = (Some h); c_cons = (Zpos XH); c_gap =
+         false } :: (dp_row0 co sc cs nm rest p0 (S j) full (Some h) false)
+    else let h =
+           match prev with
+           | Some z0 ->
+             Some
+               (Z.max
+                 (Z.add z0 (if inGap then scoreGapExt else scoreGapStart)) Z0)
+           | None -> None
+         in
+         { c_h = h; c_cons = Z0; c_gap =
+         true } :: (dp_row0 co sc cs nm rest p0 (S j) full h true)
+
+(** val none_cell : cell **)
+
+let none_cell =
+  { c_h = None; c_cons = Z0; c_gap = false }
+
+(** val dp_row :
+    char_ops -> scheme -> bool -> bool -> z list -> z -> nat -> z list ->
+    cell list -> cell -> cell -> cell list **)
+
+let rec dp_row co sc cs nm text p j full prow diag left =
+  match text with
+  | [] -> []
+  | c :: rest ->
+    let s2 =
+      opt_add left.c_h (if left.c_gap then scoreGapExt else scoreGapStart)
+    in
+    let m =
+      if Z.eqb (fold co cs nm c) p
+      then (match diag.c_h with
+            | Some d ->
+              let s1 = Z.add d scoreMatch in
+              let b = bonus_at co sc full j in
+              let cn = Z.add diag.c_cons (Zpos XH) in
+              let bc =
+                if Z.ltb (Zpos XH) cn
+                then let fb =
+                       bonus_at co sc full (sub (add j (S O)) (Z.to_nat cn))
+                     in
+                     if (&&) (Z.leb bonusBoundary b) (Z.ltb fb b)
+                     then (b, (Zpos XH))
+                     else ((Z.max b (Z.max bonusConsecutive fb)), cn)
+                else (b, cn)
+              in
+              (match s2 with
+               | Some g ->
+                 if Z.ltb (Z.add s1 (fst bc)) g
+                 then Some ((Z.add s1 b), Z0)
+                 else Some ((Z.add s1 (fst bc)), (snd bc))
+               | None -> Some ((Z.add s1 (fst bc)), (snd bc)))
+            | None -> None)
+      else None
+    in
+    let cellv =
+      match m with
+      | Some p0 ->
+        let (s1, cn) = p0 in
+        (match s2 with
+         | Some g ->
+           { c_h = (Some (Z.max (Z.max s1 g) Z0)); c_cons = cn; c_gap =
+             (Z.ltb s1 g) }
+         | None -> { c_h = (Some (Z.max s1 Z0)); c_cons = cn; c_gap = false })
+      | None ->
+        (match s2 with
+         | Some g ->
+           { c_h = (Some (Z.max g Z0)); c_cons = Z0; c_gap = (Z.ltb Z0 g) }
+         | None -> none_cell)
+    in
+    let diag' = match prow with
+                | [] -> none_cell
+                | d :: _ -> d in
+    cellv :: (dp_row co sc cs nm rest p (S j) full (tl prow) diag' cellv)
+
+(** val dp_rows :
+    char_ops -> scheme -> bool -> bool -> z list -> z list -> cell list ->
+    cell list **)
+
+let rec dp_rows co sc cs nm text pat prow =
+  match pat with
+  | [] -> prow
+  | p :: pat' ->
+    dp_rows co sc cs nm text pat'
+      (dp_row co sc cs nm text p O text prow none_cell none_cell)
+
+(** val naive_last_row :
+    char_ops -> scheme -> bool -> bool -> z list -> z list -> cell list **)
+
+let naive_last_row co sc cs nm text = function
+| [] -> []
+| p0 :: pat' ->
+  dp_rows co sc cs nm text pat'
+    (dp_row0 co sc cs nm text p0 O text None false)
+
+(** val best_cell :
+    bool -> cell list -> nat -> (z * nat) option -> (z * nat) option **)
+
+let rec best_cell fwd row j best =
+  match row with
+  | [] -> best
+  | c :: rest ->
+    let best' =
+      match c.c_h with
+      | Some h ->
+        (match best with
+         | Some p ->
+           let (bh, _) = p in
+           if if fwd then Z.ltb bh h else Z.leb bh h
+           then Some (h, (S j))
+           else best
+         | None -> Some (h, (S j)))
+      | None -> best
+    in
+    best_cell fwd rest (S j) best'
+
+(** val naive_dp :
+    char_ops -> scheme -> bool -> bool -> bool -> z list -> z list ->
+    (z * nat) option **)
+
+let naive_dp co sc cs nm fwd text pat =
+  best_cell fwd (naive_last_row co sc cs nm text pat) O None
+
+(** val equal_score : scheme -> nat -> z **)
+
+let equal_score sc m =
+  Z.add (Z.mul (Z.add scoreMatch sc.s_bw) (Z.of_nat m)) sc.s_bw
+
+type mres =
+| NoMatch
+| Match of nat * nat * z * nat list option
+
+(** val bonus_m : scheme -> z -> z -> z **)
+
+let bonus_m =
+  bonus_for
+
+(** val foldm : char_ops -> bool -> bool -> z -> z **)
+
+let foldm co cs nm c =
+  let c0 = if cs then c else lower1 co c in if nm then co.co_norm c0 else c0
+
+(** val bonus_at_m : char_ops -> scheme -> z list -> nat -> z res **)
+
+let bonus_at_m co sc text idx = match idx with
+| O -> Ok sc.s_bw
+| S j ->
+  bind (get text j) (fun a ->
+    bind (get text idx) (fun b -> Ok
+      (bonus_m sc (class_of co sc a) (class_of co sc b))))
+
+(** val index_byte : z list -> z -> nat option **)
+
+let rec index_byte l b =
+  match l with
+  | [] -> None
+  | c :: r ->
+    if Z.eqb c b
+    then Some O
+    else (match index_byte r b with
+          | Some i -> Some (S i)
+          | None -> None)
+
+(** val try_skip : z list -> bool -> z -> nat -> nat option res **)
+
+let try_skip text cs b from =
+  if Nat.ltb (length text) from
+  then Err OutOfRange
+  else let arr = skipn from text in
+       let idx = index_byte arr b in
+       (match idx with
+        | Some n ->
+          (match n with
+           | O -> Ok (Some from)
+           | S _ ->
+             let idx0 =
+               if (&&)
+                    ((&&) (negb cs)
+                      (Z.leb (Zpos (XI (XO (XO (XO (XO (XI XH))))))) b))
+                    (Z.leb b (Zpos (XO (XI (XO (XI (XI (XI XH))))))))
+               then let arr' =
+                      match idx with
+                      | Some i -> firstn i arr
+                      | None -> arr
+                    in
+                    (match index_byte arr'
+                             (Z.sub b (Zpos (XO (XO (XO (XO (XO XH))))))) with
+                     | Some u -> Some u
+                     | None -> idx)
+               else idx
+             in
+             (match idx0 with
+              | Some i -> Ok (Some (add from i))
+              | None -> Ok None))
+        | None ->
+          let idx0 =
+            if (&&)
+                 ((&&) (negb cs)
+                   (Z.leb (Zpos (XI (XO (XO (XO (XO (XI XH))))))) b))
+                 (Z.leb b (Zpos (XO (XI (XO (XI (XI (XI XH))))))))
+            then let arr' =
+                   match idx with
+                   | Some i -> firstn i arr
+                   | None -> arr
+                 in
+                 (match index_byte arr'
+                          (Z.sub b (Zpos (XO (XO (XO (XO (XO XH))))))) with
+                  | Some u -> Some u
+                  | None -> idx)
+            else idx
+          in
+          (match idx0 with
+           | Some i -> Ok (Some (add from i))
+           | None -> Ok None))
+
+(** val is_ascii : z list -> bool **)
+
+let is_ascii p =
+  forallb (fun r -> Z.ltb r (Zpos (XO (XO (XO (XO (XO (XO (XO XH))))))))) p
+
+(** val afi_loop :
+    z list -> bool -> z list -> bool -> nat -> nat -> nat -> z ->
+    ((nat * nat) * z) option res **)
+
+let rec afi_loop text cs pat first idx firstIdx lastIdx b =
+  match pat with
+  | [] -> Ok (Some ((firstIdx, lastIdx), b))
+  | p :: pat' ->
+    bind (try_skip text cs p idx) (fun r ->
+      match r with
+      | Some i ->
+        let firstIdx0 =
+          if (&&) first (Nat.ltb O i) then sub i (S O) else firstIdx
+        in
+        afi_loop text cs pat' false (S i) firstIdx0 i p
+      | None -> Ok None)
+
+(** val last_occ : z list -> z -> z -> nat -> nat option -> nat option **)
+
+let rec last_occ scope b bu off best =
+  match scope with
+  | [] -> best
+  | c :: r ->
+    last_occ r b bu (S off)
+      (if (&&) (Nat.ltb O off) ((||) (Z.eqb c b) (Z.eqb c bu))
+       then Some off
+       else best)
+
+(** val ascii_fuzzy_index :
+    bool -> z list -> z list -> bool -> (nat * nat) option res **)
+
+let ascii_fuzzy_index is_bytes text pat cs =
+  if negb is_bytes
+  then Ok (Some (O, (length text)))
+  else if negb (is_ascii pat)
+       then Ok None
+       else bind (afi_loop text cs pat true O O O Z0) (fun r ->
+              match r with
+              | Some p ->
+                let (p0, b) = p in
+                let (firstIdx, lastIdx) = p0 in
+                let bu =
+                  if (&&)
+                       ((&&) (negb cs)
+                         (Z.leb (Zpos (XI (XO (XO (XO (XO (XI XH))))))) b))
+                       (Z.leb b (Zpos (XO (XI (XO (XI (XI (XI XH))))))))
+                  then Z.sub b (Zpos (XO (XO (XO (XO (XO XH))))))
+                  else b
+                in
+                (match last_occ (skipn lastIdx text) b bu O None with
+                 | Some off ->
+                   Ok (Some (firstIdx, (add (add lastIdx off) (S O))))
+                 | None -> Ok (Some (firstIdx, (add lastIdx (S O)))))
+              | None -> Ok None)
+
+(** val calc_loop :
+    char_ops -> scheme -> bool -> bool -> z list -> nat -> z list -> z -> z
+    -> bool -> nat -> z -> bool -> nat list -> (z * nat list) res **)
+
+let rec calc_loop co sc cs nm t idx pat prevClass score inGap consecutive firstBonus first pos =
+  match t with
+  | [] -> Ok (score, (rev pos))
+  | c :: t' ->
+    let class0 = class_of co sc c in
+    let ch = foldm co cs nm c in
+    (match pat with
+     | [] -> Err OutOfRange
+     | p :: pat' ->
+       if Z.eqb ch p
+       then let bonus = bonus_m sc prevClass class0 in
+            let firstBonus' =
+              if Nat.eqb consecutive O
+              then bonus
+              else if (&&) (Z.leb bonusBoundary bonus)
+                        (Z.ltb firstBonus bonus)
+                   then bonus
+                   else firstBonus
+            in
+            let bonus' =
+              if Nat.eqb consecutive O
+              then bonus
+              else Z.max (Z.max bonus firstBonus') bonusConsecutive
+            in
+            let score0 =
+              Z.add (Z.add score scoreMatch)
+                (if first then Z.mul bonus' (Zpos (XO XH)) else bonus')
+            in
+            calc_loop co sc cs nm t' (S idx) pat' class0 score0 false (S
+              consecutive) firstBonus' false (idx :: pos)
+       else let score0 =
+              Z.add score (if inGap then scoreGapExt else scoreGapStart)
+            in
+            calc_loop co sc cs nm t' (S idx) pat class0 score0 true O Z0
+              first pos)
+
+(** val calculate_score :
+    char_ops -> scheme -> bool -> bool -> z list -> z list -> nat -> nat ->
+    (z * nat list) res **)
+
+let calculate_score co sc cs nm text pat sidx eidx =
+  if Nat.ltb (length text) eidx
+  then Err OutOfRange
+  else bind
+         (match sidx with
+          | O -> Ok sc.s_init
+          | S j -> bind (get text j) (fun a -> Ok (class_of co sc a)))
+         (fun prevClass ->
+         calc_loop co sc cs nm (firstn (sub eidx sidx) (skipn sidx text))
+           sidx pat prevClass Z0 false O Z0 true [])
+
+(** val v1_scan :
+    char_ops -> bool -> bool -> z list -> nat -> z list -> nat option ->
+    (nat * nat) option **)
+
+let rec v1_scan co cs nm t index pat sidx =
+  match pat with
+  | [] -> None
+  | p :: pat' ->
+    (match t with
+     | [] -> None
+     | c :: t' ->
+       if Z.eqb (foldm co cs nm c) p
+       then let sidx0 = match sidx with
+                        | Some _ -> sidx
+                        | None -> Some index in
+            (match pat' with
+             | [] ->
+               (match sidx0 with
+                | Some s -> Some (s, (S index))
+                | None -> None)
+             | _ :: _ -> v1_scan co cs nm t' (S index) pat' sidx0)
+       else v1_scan co cs nm t' (S index) pat sidx)
+
+(** val v1_back :
+    char_ops -> bool -> bool -> z list -> nat -> z list -> nat -> nat **)
+
+let rec v1_back co cs nm rt index rp sidx =
+  match rt with
+  | [] -> sidx
+  | c :: rt' ->
+    (match rp with
+     | [] -> sidx
+     | p :: rp' ->
+       if Z.eqb (foldm co cs nm c) p
+       then (match rp' with
+             | [] -> index
+             | _ :: _ -> v1_back co cs nm rt' (sub index (S O)) rp' sidx)
+       else v1_back co cs nm rt' (sub index (S O)) rp sidx)
+
+(** val fuzzy_v1 :
+    char_ops -> scheme -> bool -> bool -> bool -> bool -> z list -> z list ->
+    bool -> mres res **)
+
+let fuzzy_v1 co sc cs nm fwd is_bytes text pat withPos =
+  match pat with
+  | [] -> Ok (Match (O, O, Z0, None))
+  | _ :: _ ->
+    bind (ascii_fuzzy_index is_bytes text pat cs) (fun afi ->
+      match afi with
+      | Some _ ->
+        let n = length text in
+        let t = if fwd then text else rev text in
+        let p = if fwd then pat else rev pat in
+        (match v1_scan co cs nm t O p None with
+         | Some p0 ->
+           let (sidx, eidx) = p0 in
+           let sidx0 =
+             v1_back co cs nm (rev (firstn (sub eidx sidx) (skipn sidx t)))
+               (sub eidx (S O)) (rev p) sidx
+           in
+           if fwd
+           then bind (calculate_score co sc cs nm text pat sidx0 eidx)
+                  (fun sp -> Ok (Match (sidx0, eidx, (fst sp),
+                  (if withPos then Some (snd sp) else None))))
+           else let sidx1 = sub n eidx in
+                let eidx0 = sub n sidx0 in
+                bind (calculate_score co sc cs nm text pat sidx1 eidx0)
+                  (fun sp -> Ok (Match (sidx1, eidx0, (fst sp),
+                  (if withPos then Some (snd sp) else None))))
+         | None -> Ok NoMatch)
+      | None -> Ok NoMatch)
+
+type ex_state = { ex_index : z; ex_pidx : nat; ex_bonus : z; ex_bestPos : 
+                  z; ex_bestBonus : z }
+
+(** val index_at : nat -> nat -> bool -> nat **)
+
+let index_at index max0 = function
+| true -> index
+| false -> sub (sub max0 index) (S O)
+
+(** val exact_loop :
+    char_ops -> scheme -> nat -> bool -> bool -> bool -> bool -> z list -> z
+    list -> ex_state -> ex_state res **)
+
+let rec exact_loop co sc fuel cs nm fwd boundary text pat st =
+  match fuel with
+  | O -> Err OutOfFuel
+  | S fuel' ->
+    let n = length text in
+    let m = length pat in
+    if Z.leb (Z.of_nat n) st.ex_index
+    then Ok st
+    else if Z.ltb st.ex_index Z0
+         then Err OutOfRange
+         else let index = Z.to_nat st.ex_index in
+              let index_ = index_at index n fwd in
+              bind (get text index_) (fun c ->
+                let ch = foldm co cs nm c in
+                let pidx_ = index_at st.ex_pidx m fwd in
+                bind (get pat pidx_) (fun pchar ->
+                  let ok0 = Z.eqb pchar ch in
+                  bind
+                    (if (&&) ok0 (Nat.eqb pidx_ O)
+                     then bonus_at_m co sc text index_
+                     else Ok st.ex_bonus) (fun bonus ->
+                    bind
+                      (if (&&) ok0 boundary
+                       then let ok =
+                              (||) (negb (Nat.eqb pidx_ O))
+                                (Z.leb bonusBoundary bonus)
+                            in
+                            bind
+                              (if (&&) ok (Nat.eqb pidx_ O)
+                               then if Nat.eqb index_ O
+                                    then Ok true
+                                    else bind (get text (sub index_ (S O)))
+                                           (fun a -> Ok
+                                           (Z.leb (class_of co sc a) cDelim))
+                               else Ok ok) (fun ok1 ->
+                              if (&&) ok1 (Nat.eqb pidx_ (sub m (S O)))
+                              then if Nat.eqb index_ (sub n (S O))
+                                   then Ok true
+                                   else bind (get text (add index_ (S O)))
+                                          (fun a -> Ok
+                                          (Z.leb (class_of co sc a) cDelim))
+                              else Ok ok1)
+                       else Ok ok0) (fun ok ->
+                      if ok
+                      then let pidx = S st.ex_pidx in
+                           if Nat.eqb pidx m
+                           then if Z.ltb st.ex_bestBonus bonus
+                                then let bestPos = st.ex_index in
+                                     if Z.leb bonusBoundary bonus
+                                     then Ok { ex_index = st.ex_index;
+                                            ex_pidx = pidx; ex_bonus = bonus;
+                                            ex_bestPos = bestPos;
+                                            ex_bestBonus = bonus }
+                                     else exact_loop co sc fuel' cs nm fwd
+                                            boundary text pat { ex_index =
+                                            (Z.add
+                                              (Z.sub st.ex_index
+                                                (Z.sub (Z.of_nat pidx) (Zpos
+                                                  XH))) (Zpos XH)); ex_pidx =
+                                            O; ex_bonus = Z0; ex_bestPos =
+                                            bestPos; ex_bestBonus = bonus }
+                                else let bestPos = st.ex_bestPos in
+                                     let bestBonus = st.ex_bestBonus in
+                                     if Z.leb bonusBoundary bonus
+                                     then Ok { ex_index = st.ex_index;
+                                            ex_pidx = pidx; ex_bonus = bonus;
+                                            ex_bestPos = bestPos;
+                                            ex_bestBonus = bestBonus }
+                                     else exact_loop co sc fuel' cs nm fwd
+                                            boundary text pat { ex_index =
+                                            (Z.add
+                                              (Z.sub st.ex_index
+                                                (Z.sub (Z.of_nat pidx) (Zpos
+                                                  XH))) (Zpos XH)); ex_pidx =
+                                            O; ex_bonus = Z0; ex_bestPos =
+                                            bestPos; ex_bestBonus =
+                                            bestBonus }
+                           else exact_loop co sc fuel' cs nm fwd boundary
+                                  text pat { ex_index =
+                                  (Z.add st.ex_index (Zpos XH)); ex_pidx =
+                                  pidx; ex_bonus = bonus; ex_bestPos =
+                                  st.ex_bestPos; ex_bestBonus =
+                                  st.ex_bestBonus }
+                      else exact_loop co sc fuel' cs nm fwd boundary text pat
+                             { ex_index =
+                             (Z.add (Z.sub st.ex_index (Z.of_nat st.ex_pidx))
+                               (Zpos XH)); ex_pidx = O; ex_bonus = Z0;
+                             ex_bestPos = st.ex_bestPos; ex_bestBonus =
+                             st.ex_bestBonus }))))
+
+(** val exact_match :
+    char_ops -> scheme -> bool -> bool -> bool -> bool -> bool -> z list -> z
+    list -> mres res **)
+
+let exact_match co sc cs nm fwd boundary is_bytes text pat = match pat with
+| [] -> Ok (Match (O, O, Z0, None))
+| _ :: _ ->
+  let n = length text in
+  let m = length pat in
+  if Nat.ltb n m
+  then Ok NoMatch
+  else bind (ascii_fuzzy_index is_bytes text pat cs) (fun afi ->
+         match afi with
+         | Some _ ->
+           bind
+             (exact_loop co sc (S (mul n (S m))) cs nm fwd boundary text pat
+               { ex_index = Z0; ex_pidx = O; ex_bonus = Z0; ex_bestPos =
+               (Zneg XH); ex_bestBonus = (Zneg XH) }) (fun st ->
+             if Z.leb Z0 st.ex_bestPos
+             then let bestPos = Z.to_nat st.ex_bestPos in
+                  if fwd
+                  then let sidx = sub (add bestPos (S O)) m in
+                       let eidx = add bestPos (S O) in
+                       if boundary
+                       then let bonus = st.ex_bonus in
+                            let deduct =
+                              Z.add (Z.sub bonus bonusBoundary) (Zpos XH)
+                            in
+                            bind
+                              (if Nat.ltb O sidx
+                               then bind (get text (sub sidx (S O)))
+                                      (fun a -> Ok
+                                      (Z.eqb a (Zpos (XI (XI (XI (XI (XI (XO
+                                        XH)))))))))
+                               else Ok false) (fun u1 ->
+                              let score =
+                                if u1
+                                then Z.sub bonus (Z.add deduct (Zpos XH))
+                                else bonus
+                              in
+                              let deduct0 = if u1 then Zpos XH else deduct in
+                              bind
+                                (if Nat.ltb eidx n
+                                 then bind (get text eidx) (fun a -> Ok
+                                        (Z.eqb a (Zpos (XI (XI (XI (XI (XI
+                                          (XO XH)))))))))
+                                 else Ok false) (fun u2 ->
+                                let score0 =
+                                  if u2 then Z.sub score deduct0 else score
+                                in
+                                Ok (Match (sidx, eidx,
+                                (Z.add
+                                  (Z.add score0
+                                    (Z.mul scoreMatch (Z.of_nat m)))
+                                  (Z.mul sc.s_bw
+                                    (Z.add (Z.of_nat m) (Zpos XH)))), None))))
+                       else bind
+                              (calculate_score co sc cs nm text pat sidx eidx)
+                              (fun sp -> Ok (Match (sidx, eidx, (fst sp),
+                              None)))
+                  else let sidx = sub n (add bestPos (S O)) in
+                       let eidx = sub n (sub (add bestPos (S O)) m) in
+                       if boundary
+                       then let bonus = st.ex_bonus in
+                            let deduct =
+                              Z.add (Z.sub bonus bonusBoundary) (Zpos XH)
+                            in
+                            bind
+                              (if Nat.ltb O sidx
+                               then bind (get text (sub sidx (S O)))
+                                      (fun a -> Ok
+                                      (Z.eqb a (Zpos (XI (XI (XI (XI (XI (XO
+                                        XH)))))))))
+                               else Ok false) (fun u1 ->
+                              let score =
+                                if u1
+                                then Z.sub bonus (Z.add deduct (Zpos XH))
+                                else bonus
+                              in
+                              let deduct0 = if u1 then Zpos XH else deduct in
+                              bind
+                                (if Nat.ltb eidx n
+                                 then bind (get text eidx) (fun a -> Ok
+                                        (Z.eqb a (Zpos (XI (XI (XI (XI (XI
+                                          (XO XH)))))))))
+                                 else Ok false) (fun u2 ->
+                                let score0 =
+                                  if u2 then Z.sub score deduct0 else score
+                                in
+                                Ok (Match (sidx, eidx,
+                                (Z.add
+                                  (Z.add score0
+                                    (Z.mul scoreMatch (Z.of_nat m)))
+                                  (Z.mul sc.s_bw
+                                    (Z.add (Z.of_nat m) (Zpos XH)))), None))))
+                       else bind
+                              (calculate_score co sc cs nm text pat sidx eidx)
+                              (fun sp -> Ok (Match (sidx, eidx, (fst sp),
+                              None)))
+             else Ok NoMatch)
+         | None -> Ok NoMatch)
+
+(** val is_space_m : char_ops -> z -> bool **)
+
+let is_space_m =
+  is_space
+
+(** val leading_ws : char_ops -> z list -> nat **)
+
+let leading_ws co text =
+  count_while (is_space_m co) text
+
+(** val trailing_ws : char_ops -> z list -> nat **)
+
+let trailing_ws co text =
+  count_while (is_space_m co) (rev text)
+
+(** val cmp_at :
+    char_ops -> bool -> bool -> z list -> nat -> z list -> bool res **)
+
+let rec cmp_at co cs nm text off = function
+| [] -> Ok true
+| p :: pat' ->
+  bind (get text off) (fun c ->
+    if Z.eqb (foldm co cs nm c) p
+    then cmp_at co cs nm text (S off) pat'
+    else Ok false)
+
+(** val prefix_match :
+    char_ops -> scheme -> bool -> bool -> z list -> z list -> mres res **)
+
+let prefix_match co sc cs nm text pat = match pat with
+| [] -> Ok (Match (O, O, Z0, None))
+| p0 :: _ ->
+  let tl0 = if is_space_m co p0 then O else leading_ws co text in
+  if Nat.ltb (sub (length text) tl0) (length pat)
+  then Ok NoMatch
+  else bind (cmp_at co cs nm text tl0 pat) (fun ok ->
+         if ok
+         then bind
+                (calculate_score co sc cs nm text pat tl0
+                  (add tl0 (length pat))) (fun sp -> Ok (Match (tl0,
+                (add tl0 (length pat)), (fst sp), None)))
+         else Ok NoMatch)
+
+(** val suffix_match :
+    char_ops -> scheme -> bool -> bool -> z list -> z list -> mres res **)
+
+let suffix_match co sc cs nm text pat =
+  let n = length text in
+  let keep = match rev pat with
+             | [] -> false
+             | pl :: _ -> is_space_m co pl in
+  let tl0 = if keep then n else sub n (trailing_ws co text) in
+  (match pat with
+   | [] -> Ok (Match (tl0, tl0, Z0, None))
+   | _ :: _ ->
+     if Nat.ltb tl0 (length pat)
+     then Ok NoMatch
+     else let diff = sub tl0 (length pat) in
+          bind (cmp_at co cs nm text diff pat) (fun ok ->
+            if ok
+            then bind (calculate_score co sc cs nm text pat diff tl0)
+                   (fun sp -> Ok (Match (diff, tl0, (fst sp), None)))
+            else Ok NoMatch))
+
+(** val eq_norm : char_ops -> bool -> z list -> nat -> z list -> bool res **)
+
+let rec eq_norm co cs text off = function
+| [] -> Ok true
+| p :: pat' ->
+  bind (get text off) (fun c ->
+    let c0 = if cs then c else lower1 co c in
+    if Z.eqb (co.co_norm p) (co.co_norm c0)
+    then eq_norm co cs text (S off) pat'
+    else Ok false)
+
+(** val equal_match :
+    char_ops -> scheme -> bool -> bool -> z list -> z list -> mres res **)
+
+let equal_match co sc cs nm text pat = match pat with
+| [] -> Ok NoMatch
+| p0 :: _ ->
+  let m = length pat in
+  let tl0 = if is_space_m co p0 then O else leading_ws co text in
+  let te =
+    match rev pat with
+    | [] -> O
+    | pl :: _ -> if is_space_m co pl then O else trailing_ws co text
+  in
+  if negb
+       (Z.eqb
+         (Z.sub (Z.sub (Z.of_nat (length text)) (Z.of_nat tl0)) (Z.of_nat te))
+         (Z.of_nat m))
+  then Ok NoMatch
+  else bind
+         (if nm
+          then eq_norm co cs text tl0 pat
+          else cmp_at co cs false text tl0 pat) (fun ok ->
+         if ok
+         then Ok (Match (tl0, (add tl0 m),
+                (Z.add (Z.mul (Z.add scoreMatch sc.s_bw) (Z.of_nat m))
+                  sc.s_bw), None))
+         else Ok NoMatch)
+
+(** val fold_v2 : char_ops -> scheme -> bool -> bool -> z -> z * z **)
+
+let fold_v2 co sc cs nm c =
+  if Z.leb c (Zpos (XI (XI (XI (XI (XI (XI XH)))))))
+  then let class0 = ascii_class sc c in
+       (class0,
+       (if (&&) (negb cs) (Z.eqb class0 cUpper)
+        then Z.add c (Zpos (XO (XO (XO (XO (XO XH))))))
+        else c))
+  else let class0 = co.co_class c in
+       let c0 =
+         if (&&) (negb cs) (Z.eqb class0 cUpper) then co.co_lower c else c
+       in
+       (class0, (if nm then co.co_norm c0 else c0))
+
+type p2 = { p2_T : z list; p2_B : z list; p2_H0 : z list; p2_C0 : z list;
+            p2_F : nat list; p2_pidx : nat; p2_lastIdx : nat;
+            p2_maxScore : z; p2_maxPos : nat }
+
+(** val phase2 :
+    char_ops -> scheme -> bool -> bool -> bool -> bool -> z list -> nat -> z
+    -> z list -> z -> z -> z -> bool -> p2 -> p2 **)
+
+let rec phase2 co sc cs nm fwd m1 w off p0 rest plast prevH0 prevClass inGap st =
+  match w with
+  | [] -> st
+  | c0 :: w' ->
+    let (class0, c) = fold_v2 co sc cs nm c0 in
+    let bonus = bonus_m sc prevClass class0 in
+    let pchar = match rest with
+                | [] -> plast
+                | p :: _ -> p in
+    let hit = Z.eqb c pchar in
+    let f' =
+      if hit
+      then (match rest with
+            | [] -> st.p2_F
+            | _ :: _ -> off :: st.p2_F)
+      else st.p2_F
+    in
+    let pidx' =
+      if hit
+      then (match rest with
+            | [] -> st.p2_pidx
+            | _ :: _ -> S st.p2_pidx)
+      else st.p2_pidx
+    in
+    let rest' = if hit then (match rest with
+                             | [] -> []
+                             | _ :: r -> r) else rest
+    in
+    let lastIdx' = if hit then off else st.p2_lastIdx in
+    if Z.eqb c p0
+    then let score = Z.add scoreMatch (Z.mul bonus (Zpos (XO XH))) in
+         let better =
+           (&&) m1
+             (if fwd
+              then Z.ltb st.p2_maxScore score
+              else Z.leb st.p2_maxScore score)
+         in
+         let st' = { p2_T = (c :: st.p2_T); p2_B = (bonus :: st.p2_B);
+           p2_H0 = (score :: st.p2_H0); p2_C0 = ((Zpos XH) :: st.p2_C0);
+           p2_F = f'; p2_pidx = pidx'; p2_lastIdx = lastIdx'; p2_maxScore =
+           (if better then score else st.p2_maxScore); p2_maxPos =
+           (if better then off else st.p2_maxPos) }
+         in
+         if (&&) ((&&) better fwd) (Z.leb bonusBoundary bonus)
+         then st'
+         else phase2 co sc cs nm fwd m1 w' (S off) p0 rest' plast score
+                class0 false st'
+    else let h =
+           Z.max
+             (Z.add prevH0 (if inGap then scoreGapExt else scoreGapStart)) Z0
+         in
+         let st' = { p2_T = (c :: st.p2_T); p2_B = (bonus :: st.p2_B);
+           p2_H0 = (h :: st.p2_H0); p2_C0 = (Z0 :: st.p2_C0); p2_F = f';
+           p2_pidx = pidx'; p2_lastIdx = lastIdx'; p2_maxScore =
+           st.p2_maxScore; p2_maxPos = st.p2_maxPos }
+         in
+         phase2 co sc cs nm fwd m1 w' (S off) p0 rest' plast h class0 true st'
+
+type mat = z option list
+
+(** val mget : mat -> z -> z res **)
+
+let mget m i =
+  if Z.ltb i Z0
+  then Err OutOfRange
+  else (match get m (Z.to_nat i) with
+        | Ok a -> (match a with
+                   | Some v -> Ok v
+                   | None -> Err Panic)
+        | Err e -> Err e)
+
+(** val mset : mat -> z -> z -> mat res **)
+
+let mset m i v =
+  if Z.ltb i Z0 then Err OutOfRange else set_nth m (Z.to_nat i) (Some v)
+
+(** val zget : z list -> z -> z res **)
+
+let zget l i =
+  if Z.ltb i Z0 then Err OutOfRange else get l (Z.to_nat i)
+
+(** val p3_row :
+    bool -> bool -> z list -> z list -> mat -> mat -> z -> z -> z -> z -> nat
+    -> z -> bool -> z -> z -> (((mat * mat) * z) * z) res **)
+
+let rec p3_row fwd lastrow t b h c row width f0 pchar n col inGap maxScore maxPos =
+  match n with
+  | O -> Ok (((h, c), maxScore), maxPos)
+  | S n' ->
+    let j0 = Z.sub col f0 in
+    bind (mget h (Z.sub (Z.add row j0) (Zpos XH))) (fun hleft ->
+      let s2 = Z.add hleft (if inGap then scoreGapExt else scoreGapStart) in
+      bind (zget t col) (fun ch ->
+        bind
+          (if Z.eqb pchar ch
+           then bind (mget h (Z.sub (Z.sub (Z.add row j0) (Zpos XH)) width))
+                  (fun hdiag ->
+                  bind
+                    (mget c (Z.sub (Z.sub (Z.add row j0) (Zpos XH)) width))
+                    (fun cdiag ->
+                    bind (zget b col) (fun b0 ->
+                      let s1 = Z.add hdiag scoreMatch in
+                      let cn = Z.add cdiag (Zpos XH) in
+                      bind
+                        (if Z.ltb (Zpos XH) cn
+                         then bind (zget b (Z.add (Z.sub col cn) (Zpos XH)))
+                                (fun fb ->
+                                if (&&) (Z.leb bonusBoundary b0) (Z.ltb fb b0)
+                                then Ok (b0, (Zpos XH))
+                                else Ok
+                                       ((Z.max b0 (Z.max bonusConsecutive fb)),
+                                       cn))
+                         else Ok (b0, cn)) (fun bc ->
+                        if Z.ltb (Z.add s1 (fst bc)) s2
+                        then Ok ((Z.add s1 b0), Z0)
+                        else Ok ((Z.add s1 (fst bc)), (snd bc))))))
+           else Ok (Z0, Z0)) (fun r ->
+          let s1 = fst r in
+          bind (mset c (Z.add row j0) (snd r)) (fun c' ->
+            let score = Z.max (Z.max s1 s2) Z0 in
+            let better =
+              (&&) lastrow
+                (if fwd then Z.ltb maxScore score else Z.leb maxScore score)
+            in
+            bind (mset h (Z.add row j0) score) (fun h' ->
+              p3_row fwd lastrow t b h' c' row width f0 pchar n'
+                (Z.add col (Zpos XH)) (Z.ltb s1 s2)
+                (if better then score else maxScore)
+                (if better then col else maxPos))))))
+
+(** val p3_rows :
+    bool -> z list -> z list -> mat -> mat -> z -> z -> z -> nat -> nat list
+    -> z list -> nat -> z -> z -> (((mat * mat) * z) * z) res **)
+
+let rec p3_rows fwd t b h c width f0 lastIdx m fsub psub pidx maxScore maxPos =
+  match fsub with
+  | [] -> Ok (((h, c), maxScore), maxPos)
+  | f :: fsub' ->
+    (match psub with
+     | [] -> Ok (((h, c), maxScore), maxPos)
+     | pchar :: psub' ->
+       let f1 = Z.of_nat f in
+       let row = Z.mul (Z.of_nat pidx) width in
+       bind (mset h (Z.sub (Z.sub (Z.add row f1) f0) (Zpos XH)) Z0)
+         (fun h1 ->
+         bind
+           (p3_row fwd (Nat.eqb pidx (sub m (S O))) t b h1 c row width f0
+             pchar (Z.to_nat (Z.sub (Z.add lastIdx (Zpos XH)) f1)) f1 false
+             maxScore maxPos) (fun r ->
+           let (p, mp) = r in
+           let (p0, ms) = p in
+           let (h2, c2) = p0 in
+           p3_rows fwd t b h2 c2 width f0 lastIdx m fsub' psub' (S pidx) ms mp)))
+
+(** val p4 :
+    nat -> mat -> mat -> nat list -> z -> z -> nat -> nat -> nat -> z -> bool
+    -> nat list -> (nat list * z) res **)
+
+let rec p4 fuel h c f width f0 m minIdx i j preferMatch pos =
+  match fuel with
+  | O -> Err OutOfFuel
+  | S fuel' ->
+    let i0 = Z.mul (Z.of_nat i) width in
+    let j0 = Z.sub j f0 in
+    bind (mget h (Z.add i0 j0)) (fun s ->
+      bind (get f i) (fun fi ->
+        let fi0 = Z.of_nat fi in
+        bind
+          (if (&&) (Nat.ltb O i) (Z.leb fi0 j)
+           then mget h (Z.sub (Z.add (Z.sub i0 width) j0) (Zpos XH))
+           else Ok Z0) (fun s1 ->
+          bind
+            (if Z.ltb fi0 j
+             then mget h (Z.sub (Z.add i0 j0) (Zpos XH))
+             else Ok Z0) (fun s2 ->
+            let take =
+              (&&) (Z.ltb s1 s)
+                ((||) (Z.ltb s2 s) ((&&) (Z.eqb s s2) preferMatch))
+            in
+            let pos' =
+              if take
+              then (Z.to_nat (Z.add j (Z.of_nat minIdx))) :: pos
+              else pos
+            in
+            if (&&) take (Nat.eqb i O)
+            then if Z.ltb (Z.add j (Z.of_nat minIdx)) Z0
+                 then Err OutOfRange
+                 else Ok (pos', j)
+            else let i' = if take then sub i (S O) else i in
+                 bind (mget c (Z.add i0 j0)) (fun c1 ->
+                   bind
+                     (if Z.ltb (Zpos XH) c1
+                      then Ok true
+                      else if Z.ltb
+                                (Z.add (Z.add (Z.add i0 width) j0) (Zpos XH))
+                                (Z.of_nat (length c))
+                           then bind
+                                  (get f
+                                    (add (Z.to_nat (Z.div i0 width)) (S O)))
+                                  (fun fn ->
+                                  if Z.leb (Z.of_nat fn) (Z.add j (Zpos XH))
+                                  then bind
+                                         (mget c
+                                           (Z.add (Z.add (Z.add i0 width) j0)
+                                             (Zpos XH))) (fun c2 -> Ok
+                                         (Z.ltb Z0 c2))
+                                  else Ok false)
+                           else Ok false) (fun pm ->
+                     p4 fuel' h c f width f0 m minIdx i' (Z.sub j (Zpos XH))
+                       pm pos'))))))
+
+(** val put_row : mat -> z -> z list -> mat res **)
+
+let rec put_row m off = function
+| [] -> Ok m
+| v :: r -> bind (mset m off v) (fun m' -> put_row m' (Z.add off (Zpos XH)) r)
+
+(** val fuzzy_v2 :
+    char_ops -> scheme -> bool -> bool -> bool -> bool -> z list -> z list ->
+    bool -> z option -> mres res **)
+
+let fuzzy_v2 co sc cs nm fwd is_bytes text pat withPos slabCap =
+  let m = length pat in
+  (match pat with
+   | [] -> Ok (Match (O, O, Z0, (if withPos then Some [] else None)))
+   | p0 :: _ ->
+     let n = length text in
+     if Nat.ltb n m
+     then Ok NoMatch
+     else if match slabCap with
+             | Some cap -> Z.ltb cap (Z.mul (Z.of_nat n) (Z.of_nat m))
+             | None -> false
+          then fuzzy_v1 co sc cs nm fwd is_bytes text pat withPos
+          else bind (ascii_fuzzy_index is_bytes text pat cs) (fun afi ->
+                 match afi with
+                 | Some p ->
+                   let (minIdx, maxIdx) = p in
+                   if (||) (Nat.ltb maxIdx minIdx) (Nat.ltb n maxIdx)
+                   then Err OutOfRange
+                   else let w = firstn (sub maxIdx minIdx) (skipn minIdx text)
+                        in
+                        let plast = last pat Z0 in
+                        let st =
+                          phase2 co sc cs nm fwd (Nat.eqb m (S O)) w O p0 pat
+                            plast Z0 sc.s_init false { p2_T = []; p2_B = [];
+                            p2_H0 = []; p2_C0 = []; p2_F = []; p2_pidx = O;
+                            p2_lastIdx = O; p2_maxScore = Z0; p2_maxPos = O }
+                        in
+                        if negb (Nat.eqb st.p2_pidx m)
+                        then Ok NoMatch
+                        else if Nat.eqb m (S O)
+                             then let r = add minIdx st.p2_maxPos in
+                                  Ok (Match (r, (S r), st.p2_maxScore,
+                                  (if withPos then Some (r :: []) else None)))
+                             else let t = rev st.p2_T in
+                                  let b = rev st.p2_B in
+                                  let h0 = rev st.p2_H0 in
+                                  let c0 = rev st.p2_C0 in
+                                  let f = rev st.p2_F in
+                                  bind (get f O) (fun f0n ->
+                                    let f0 = Z.of_nat f0n in
+                                    let lastIdx = Z.of_nat st.p2_lastIdx in
+                                    let width =
+                                      Z.add (Z.sub lastIdx f0) (Zpos XH)
+                                    in
+                                    if Z.leb width Z0
+                                    then Err OutOfRange
+                                    else let cells =
+                                           Z.to_nat (Z.mul width (Z.of_nat m))
+                                         in
+                                         let blank = repeat None cells in
+                                         let seg = fun l ->
+                                           firstn (Z.to_nat width)
+                                             (skipn f0n l)
+                                         in
+                                         if Nat.ltb (length h0)
+                                              (Z.to_nat
+                                                (Z.add lastIdx (Zpos XH)))
+                                         then Err OutOfRange
+                                         else bind
+                                                (put_row blank Z0 (seg h0))
+                                                (fun h ->
+                                                bind
+                                                  (put_row blank Z0 (seg c0))
+                                                  (fun c ->
+                                                  bind
+                                                    (p3_rows fwd t b h c
+                                                      width f0 lastIdx m
+                                                      (tl f) (tl pat) (S O)
+                                                      st.p2_maxScore
+                                                      (Z.of_nat st.p2_maxPos))
+                                                    (fun r ->
+                                                    let (p1, maxPos) = r in
+                                                    let (p3, maxScore) = p1 in
+                                                    let (h1, c1) = p3 in
+                                                    if Z.ltb maxPos Z0
+                                                    then Err OutOfRange
+                                                    else if withPos
+                                                         then bind
+                                                                (p4 (S
+                                                                  (Z.to_nat
+                                                                    maxPos))
+                                                                  h1 c1 f
+                                                                  width f0 m
+                                                                  minIdx
+                                                                  (sub m (S
+                                                                    O))
+                                                                  maxPos true
+                                                                  [])
+                                                                (fun pj -> Ok
+                                                                (Match
+                                                                ((Z.to_nat
+                                                                   (Z.add
+                                                                    (Z.of_nat
+                                                                    minIdx)
+                                                                    (snd pj))),
+                                                                (add
+                                                                  (add minIdx
+                                                                    (Z.to_nat
+                                                                    maxPos))
+                                                                  (S O)),
+                                                                maxScore,
+                                                                (Some
+                                                                (rev (fst pj))))))
+                                                         else Ok (Match
+                                                                ((add minIdx
+                                                                   f0n),
+                                                                (add
+                                                                  (add minIdx
+                                                                    (Z.to_nat
+                                                                    maxPos))
+                                                                  (S O)),
+                                                                maxScore,
+                                                                None))))))
+                 | None -> Ok NoMatch))
+
+(** val tbl_find : z list list -> z -> z list option **)
+
+let rec tbl_find t r =
+  match t with
+  | [] -> None
+  | e :: t' ->
+    (match e with
+     | [] -> tbl_find t' r
+     | k :: _ -> if Z.eqb k r then Some e else tbl_find t' r)
+
+(** val ops_of : z list list -> char_ops **)
+
+let ops_of t =
+  { co_lower = (fun r ->
+    match tbl_find t r with
+    | Some l0 ->
+      (match l0 with
+       | [] -> r
+       | _ :: l1 ->
+         (match l1 with
+          | [] -> r
+          | l :: l2 ->
+            (match l2 with
+             | [] -> r
+             | _ :: l3 ->
+               (match l3 with
+                | [] -> r
+                | _ :: l4 ->
+                  (match l4 with
+                   | [] -> r
+                   | _ :: l5 -> (match l5 with
+                                 | [] -> l
+                                 | _ :: _ -> r))))))
+    | None -> r); co_class = (fun r ->
+    match tbl_find t r with
+    | Some l ->
+      (match l with
+       | [] -> cNonWord
+       | _ :: l0 ->
+         (match l0 with
+          | [] -> cNonWord
+          | _ :: l1 ->
+            (match l1 with
+             | [] -> cNonWord
+             | c :: l2 ->
+               (match l2 with
+                | [] -> cNonWord
+                | _ :: l3 ->
+                  (match l3 with
+                   | [] -> cNonWord
+                   | _ :: l4 -> (match l4 with
+                                 | [] -> c
+                                 | _ :: _ -> cNonWord))))))
+    | None -> cNonWord); co_norm = (fun r ->
+    match tbl_find t r with
+    | Some l ->
+      (match l with
+       | [] -> r
+       | _ :: l0 ->
+         (match l0 with
+          | [] -> r
+          | _ :: l1 ->
+            (match l1 with
+             | [] -> r
+             | _ :: l2 ->
+               (match l2 with
+                | [] -> r
+                | n :: l3 ->
+                  (match l3 with
+                   | [] -> r
+                   | _ :: l4 -> (match l4 with
+                                 | [] -> n
+                                 | _ :: _ -> r))))))
+    | None -> r); co_space = (fun r ->
+    match tbl_find t r with
+    | Some l ->
+      (match l with
+       | [] -> false
+       | _ :: l0 ->
+         (match l0 with
+          | [] -> false
+          | _ :: l1 ->
+            (match l1 with
+             | [] -> false
+             | _ :: l2 ->
+               (match l2 with
+                | [] -> false
+                | _ :: l3 ->
+                  (match l3 with
+                   | [] -> false
+                   | s :: l4 ->
+                     (match l4 with
+                      | [] -> negb (Z.eqb s Z0)
+                      | _ :: _ -> false))))))
+    | None -> false) }
+
+(** val scheme_of : z -> scheme **)
+
+let scheme_of z0 =
+  if Z.eqb z0 (Zpos XH)
+  then scheme_path
+  else if Z.eqb z0 (Zpos (XO XH)) then scheme_history else scheme_default
+
+(** val v_mres : mres res -> val0 **)
+
+let v_mres = function
+| Ok a ->
+  (match a with
+   | NoMatch -> VL []
+   | Match (s, e, sc, pos) ->
+     VL ((vnat s) :: ((vnat e) :: ((VI
+       sc) :: ((match pos with
+                | Some p -> VL (map vnat p)
+                | None -> VI (Zneg XH)) :: [])))))
+| Err _ -> verr
+
+type acall = { a_fn : z; a_cs : bool; a_nm : bool; a_fwd : bool;
+               a_bytes : bool; a_wp : bool; a_cap : z option; a_sc : 
+               scheme; a_text : z list; a_pat : z list; a_co : char_ops }
+
+(** val as_call : val0 -> acall **)
+
+let as_call a =
+  { a_fn = (as_int (arg a O)); a_cs = (as_bool (arg a (S O))); a_nm =
+    (as_bool (arg a (S (S O)))); a_fwd = (as_bool (arg a (S (S (S O)))));
+    a_bytes = (as_bool (arg a (S (S (S (S O)))))); a_wp =
+    (as_bool (arg a (S (S (S (S (S O))))))); a_cap =
+    (let c = as_int (arg a (S (S (S (S (S (S O))))))) in
+     if Z.ltb c Z0 then None else Some c); a_sc =
+    (scheme_of (as_int (arg a (S (S (S (S (S (S (S O)))))))))); a_text =
+    (as_str (arg a (S (S (S (S (S (S (S (S O)))))))))); a_pat =
+    (as_str (arg a (S (S (S (S (S (S (S (S (S O))))))))))); a_co =
+    (ops_of
+      (map as_str (as_list (arg a (S (S (S (S (S (S (S (S (S (S O)))))))))))))) }
+
+(** val run_model : acall -> mres res **)
+
+let run_model c =
+  let co = c.a_co in
+  let sc = c.a_sc in
+  let f = c.a_fn in
+  if Z.eqb f (Zpos XH)
+  then fuzzy_v1 co sc c.a_cs c.a_nm c.a_fwd c.a_bytes c.a_text c.a_pat c.a_wp
+  else if Z.eqb f (Zpos (XO XH))
+       then fuzzy_v2 co sc c.a_cs c.a_nm c.a_fwd c.a_bytes c.a_text c.a_pat
+              c.a_wp c.a_cap
+       else if Z.eqb f (Zpos (XI XH))
+            then exact_match co sc c.a_cs c.a_nm c.a_fwd false c.a_bytes
+                   c.a_text c.a_pat
+            else if Z.eqb f (Zpos (XO (XO XH)))
+                 then exact_match co sc c.a_cs c.a_nm c.a_fwd true c.a_bytes
+                        c.a_text c.a_pat
+                 else if Z.eqb f (Zpos (XI (XO XH)))
+                      then prefix_match co sc c.a_cs c.a_nm c.a_text c.a_pat
+                      else if Z.eqb f (Zpos (XO (XI XH)))
+                           then suffix_match co sc c.a_cs c.a_nm c.a_text
+                                  c.a_pat
+                           else equal_match co sc c.a_cs c.a_nm c.a_text
+                                  c.a_pat
+
+(** val insert_nat : nat -> nat list -> nat list **)
+
+let rec insert_nat x l = match l with
+| [] -> x :: []
+| y :: r -> if Nat.leb x y then x :: l else y :: (insert_nat x r)
+
+(** val sort_nat : nat list -> nat list **)
+
+let sort_nat l =
+  fold_right insert_nat [] l
+
+(** val seq_from : nat -> nat -> nat list **)
+
+let rec seq_from s = function
+| O -> []
+| S n' -> s :: (seq_from (S s) n')
+
+(** val check_answer : acall -> val0 -> z list **)
+
+let check_answer c ans =
+  let co = c.a_co in
+  let sc = c.a_sc in
+  let cs = c.a_cs in
+  let nm = c.a_nm in
+  let text = c.a_text in
+  let pat = c.a_pat in
+  let f = c.a_fn in
+  let n = length text in
+  let m = length pat in
+  (match as_list ans with
+   | [] ->
+     if (||) (Z.eqb f (Zpos XH)) (Z.eqb f (Zpos (XO XH)))
+     then if subseq_b co cs nm text pat then (Zpos (XO (XO XH))) :: [] else []
+     else if Z.eqb f (Zpos (XI XH))
+          then if substr_b co cs nm text pat
+               then (Zpos (XO (XO XH))) :: []
+               else []
+          else if Z.eqb f (Zpos (XO (XO XH)))
+               then if boundary_substr_b co sc cs nm text pat
+                    then (Zpos (XO (XO XH))) :: []
+                    else []
+               else if Z.eqb f (Zpos (XI (XO XH)))
+                    then (match prefix_spec co cs nm text pat with
+                          | Some _ -> (Zpos (XO (XO XH))) :: []
+                          | None -> [])
+                    else if Z.eqb f (Zpos (XO (XI XH)))
+                         then (match suffix_spec co cs nm text pat with
+                               | Some _ -> (Zpos (XO (XO XH))) :: []
+                               | None -> [])
+                         else (match equal_spec co cs nm text pat with
+                               | Some _ -> (Zpos (XO (XO XH))) :: []
+                               | None -> [])
+   | vs :: l ->
+     (match l with
+      | [] -> (Zpos XH) :: []
+      | ve :: l0 ->
+        (match l0 with
+         | [] -> (Zpos XH) :: []
+         | vsc :: l1 ->
+           (match l1 with
+            | [] -> (Zpos XH) :: []
+            | vpos :: _ ->
+              let s = as_nat vs in
+              let e = as_nat ve in
+              let score = as_int vsc in
+              let range_bad = negb ((&&) (Nat.leb s e) (Nat.leb e n)) in
+              let r1 = if range_bad then (Zpos XH) :: [] else [] in
+              let r2 =
+                if Nat.eqb m O
+                then if Nat.eqb s e then [] else (Zpos (XI (XO XH))) :: []
+                else if (||) (Z.eqb f (Zpos XH)) (Z.eqb f (Zpos (XO XH)))
+                     then app
+                            (if subseq_b co cs nm text pat
+                             then []
+                             else (Zpos (XI (XI XH))) :: [])
+                            (match vpos with
+                             | VI _ -> []
+                             | VL ps ->
+                               let pos = sort_nat (map as_nat ps) in
+                               app
+                                 (if witness co cs nm text pat pos
+                                  then []
+                                  else (Zpos (XO XH)) :: [])
+                                 (if forallb (fun p ->
+                                       (&&) (Nat.leb s p) (Nat.ltb p e)) pos
+                                  then []
+                                  else (Zpos (XI XH)) :: []))
+                     else if Z.eqb f (Zpos (XI XH))
+                          then if (&&) (occurs_at co cs nm text pat s)
+                                    (Nat.eqb e (add s m))
+                               then []
+                               else (Zpos (XI (XO XH))) :: []
+                          else if Z.eqb f (Zpos (XO (XO XH)))
+                               then if (&&)
+                                         (boundary_at co sc cs nm text pat s)
+                                         (Nat.eqb e (add s m))
+                                    then []
+                                    else (Zpos (XI (XO XH))) :: []
+                               else if Z.eqb f (Zpos (XI (XO XH)))
+                                    then (match prefix_spec co cs nm text pat with
+                                          | Some s' ->
+                                            if (&&) (Nat.eqb s s')
+                                                 (Nat.eqb e (add s m))
+                                            then []
+                                            else (Zpos (XI (XO XH))) :: []
+                                          | None -> (Zpos (XI (XI XH))) :: [])
+                                    else if Z.eqb f (Zpos (XO (XI XH)))
+                                         then (match suffix_spec co cs nm
+                                                       text pat with
+                                               | Some s' ->
+                                                 if (&&) (Nat.eqb s s')
+                                                      (Nat.eqb e (add s m))
+                                                 then []
+                                                 else (Zpos (XI (XO
+                                                        XH))) :: []
+                                               | None ->
+                                                 (Zpos (XI (XI XH))) :: [])
+                                         else (match equal_spec co cs nm text
+                                                       pat with
+                                               | Some s' ->
+                                                 if (&&) (Nat.eqb s s')
+                                                      (Nat.eqb e (add s m))
+                                                 then []
+                                                 else (Zpos (XI (XO
+                                                        XH))) :: []
+                                               | None ->
+                                                 (Zpos (XI (XI XH))) :: [])
+              in
+              let r3 =
+                if Nat.eqb m O
+                then if Z.eqb score Z0 then [] else (Zpos (XO (XI XH))) :: []
+                else if Z.eqb f (Zpos (XO XH))
+                     then if (&&) (Nat.leb (S O) m)
+                               (negb
+                                 (match c.a_cap with
+                                  | Some cap ->
+                                    Z.ltb cap
+                                      (Z.mul (Z.of_nat n) (Z.of_nat m))
+                                  | None -> false))
+                          then (match naive_dp co sc cs nm c.a_fwd text pat with
+                                | Some p ->
+                                  let (h, e') = p in
+                                  if (&&) (Z.eqb h score) (Nat.eqb e e')
+                                  then []
+                                  else (Zpos (XO (XI XH))) :: []
+                                | None -> (Zpos (XO (XI XH))) :: [])
+                          else []
+                     else if Z.eqb f (Zpos XH)
+                          then (match vpos with
+                                | VI _ -> []
+                                | VL ps ->
+                                  if Z.eqb
+                                       (align_score co sc text
+                                         (sort_nat (map as_nat ps))) score
+                                  then []
+                                  else (Zpos (XO (XI XH))) :: [])
+                          else if (||)
+                                    ((||) (Z.eqb f (Zpos (XI XH)))
+                                      (Z.eqb f (Zpos (XI (XO XH)))))
+                                    (Z.eqb f (Zpos (XO (XI XH))))
+                               then if Z.eqb
+                                         (align_score co sc text
+                                           (seq_from s m)) score
+                                    then []
+                                    else (Zpos (XO (XI XH))) :: []
+                               else if Z.eqb f (Zpos (XI (XI XH)))
+                                    then if Z.eqb (equal_score sc m) score
+                                         then []
+                                         else (Zpos (XO (XI XH))) :: []
+                                    else []
+              in
+              app r1 (app r2 r3)))))
+
+(** val dispatch_algo : z -> val0 -> val0 option **)
+
+let dispatch_algo op a =
+  if Z.eqb op (Zpos (XI (XO (XO (XI (XO (XO (XI XH))))))))
+  then Some (v_mres (run_model (as_call a)))
+  else if Z.eqb op (Zpos (XO (XI (XO (XI (XO (XO (XI XH))))))))
+       then Some (VL
+              (map (fun x -> VI x)
+                (check_answer (as_call (arg a O)) (arg a (S O)))))
+       else if Z.eqb op (Zpos (XI (XI (XO (XI (XO (XO (XI XH))))))))
+            then let c = as_call a in
+                 Some
+                 (match naive_dp c.a_co c.a_sc c.a_cs c.a_nm c.a_fwd c.a_text
+                          c.a_pat with
+                  | Some p ->
+                    let (h, e) = p in VL ((VI h) :: ((vnat e) :: []))
+                  | None -> VL [])
+            else None
 
 (** val nL : z **)
 
@@ -379,14 +2553,14 @@ let last_str ls = match ls with
 
 (** val new_history : fs -> nat -> (hist * fs) res **)
 
-let new_history file max =
+let new_history file max0 =
   let data = match file with
              | Some d -> d
              | None -> [] in
   let lines = go_split_nl (go_trim_nl data) in
   bind (last_str lines) (fun l ->
     let lines0 = if nonemptyb l then app lines ([] :: []) else lines in
-    Ok ({ h_lines = lines0; h_modified = []; h_max = max; h_cursor =
+    Ok ({ h_lines = lines0; h_modified = []; h_max = max0; h_cursor =
     (sub (length lines0) (S O)) }, (Some data)))
 
 (** val h_append : hist -> fs -> str -> (hist * fs) res **)
@@ -484,8 +2658,8 @@ type session = { ss_ops : sop list; ss_submit : bool }
 
 (** val run_session : nat -> fs -> session -> ((fs * str list) * str) res **)
 
-let run_session max file s =
-  bind (new_history file max) (fun hf ->
+let run_session max0 file s =
+  bind (new_history file max0) (fun hf ->
     bind
       (sess_steps { s_hist = (fst hf); s_input = []; s_seen = [] } s.ss_ops)
       (fun st ->
@@ -523,37 +2697,47 @@ let as_session v =
 
 (** val d_sessions : nat -> fs -> session list -> val0 list **)
 
-let rec d_sessions max file = function
+let rec d_sessions max0 file = function
 | [] -> []
 | s :: r ->
-  (match run_session max file s with
+  (match run_session max0 file s with
    | Ok a ->
      let (p, inp) = a in
      let (f', seen) = p in
      (VL
-     ((vfs f') :: ((vstrs seen) :: ((vstr inp) :: [])))) :: (d_sessions max
+     ((vfs f') :: ((vstrs seen) :: ((vstr inp) :: [])))) :: (d_sessions max0
                                                               f' r)
    | Err _ -> verr :: [])
 
 (** val d_spec_stored : nat -> fs -> str list -> val0 **)
 
-let d_spec_stored max file qs =
+let d_spec_stored max0 file qs =
   vstrs
-    (stored_after max (entries (match file with
-                                | Some d -> d
-                                | None -> [])) qs)
+    (stored_after max0 (entries (match file with
+                                 | Some d -> d
+                                 | None -> [])) qs)
+
+(** val dispatch_history : z -> val0 -> val0 option **)
+
+let dispatch_history op a =
+  if Z.eqb op (Zpos (XI (XO (XO (XI (XO (XO (XO (XO (XI (XI XH)))))))))))
+  then Some (VL
+         (d_sessions (as_nat (arg a O)) (as_fs (arg a (S O)))
+           (map as_session (as_list (arg a (S (S O)))))))
+  else if Z.eqb op (Zpos (XO (XI (XO (XI (XO (XO (XO (XO (XI (XI XH)))))))))))
+       then Some
+              (d_spec_stored (as_nat (arg a O)) (as_fs (arg a (S O)))
+                (as_strs (arg a (S (S O)))))
+       else if Z.eqb op (Zpos (XI (XI (XO (XI (XO (XO (XO (XO (XI (XI
+                 XH)))))))))))
+            then Some (vstrs (entries (as_str a)))
+            else None
 
 (** val dispatch : z -> val0 -> val0 **)
 
 let dispatch op a =
-  if Z.eqb op (Zpos (XI (XO (XO (XI (XO (XO (XO (XO (XI (XI XH)))))))))))
-  then VL
-         (d_sessions (as_nat (arg a O)) (as_fs (arg a (S O)))
-           (map as_session (as_list (arg a (S (S O))))))
-  else if Z.eqb op (Zpos (XO (XI (XO (XI (XO (XO (XO (XO (XI (XI XH)))))))))))
-       then d_spec_stored (as_nat (arg a O)) (as_fs (arg a (S O)))
-              (as_strs (arg a (S (S O))))
-       else if Z.eqb op (Zpos (XI (XI (XO (XI (XO (XO (XO (XO (XI (XI
-                 XH)))))))))))
-            then vstrs (entries (as_str a))
-            else verr
+  match dispatch_algo op a with
+  | Some v -> v
+  | None -> (match dispatch_history op a with
+             | Some v -> v
+             | None -> verr)
